@@ -198,6 +198,39 @@ fn main() {
                 vengine::checks::c19::loader_worker(&args[i + 1], args[i + 2].parse().unwrap());
                 return;
             }
+            "--cancel-resume" => {
+                // debug: vcheck --cancel-resume <lang> <file> <first> <every>: cancel at callback <first>, then every <every>, resuming each time
+                let l = vengine::lang::zoo(&args[i + 1]);
+                let bytes = std::fs::read(&args[i + 2]).unwrap();
+                let first: u64 = args[i + 3].parse().unwrap();
+                let every: u64 = args[i + 4].parse().unwrap();
+                let mut p = tree_sitter::Parser::new();
+                p.set_language(&l.language).unwrap();
+                let reference = p.parse(&bytes, None).unwrap();
+                let mut p2 = tree_sitter::Parser::new();
+                p2.set_language(&l.language).unwrap();
+                let mut limit = first;
+                let mut n = 0;
+                let tree = loop {
+                    let (t, st) = vengine::drive::parse(&mut p2, &bytes, None, &vengine::drive::Chunking::Whole, Some(limit));
+                    n += 1;
+                    if let Some(t) = t {
+                        println!("finished after {n} drives (last cancelled={})", st.cancelled);
+                        break t;
+                    }
+                    limit = every;
+                    if n > 100000 {
+                        panic!("no progress");
+                    }
+                };
+                let a = vengine::model::xtree::XTree::build(&reference);
+                let b = vengine::model::xtree::XTree::build(&tree);
+                match vengine::model::xtree::xtree_diff(&a, &b, vengine::model::xtree::EqOpts::FULL) {
+                    None => println!("same"),
+                    Some((i, _, d)) => println!("DIFF at {}: {d}\nreference {}\nresumed   {}", a.path_kinds(i, &l.language), reference.root_node().to_sexp().chars().take(600).collect::<String>(), tree.root_node().to_sexp().chars().take(600).collect::<String>()),
+                }
+                return;
+            }
             "--merge-diff" => {
                 // debug: vcheck --merge-diff <grammar.json> <text>: trees with and without state merging
                 let g = std::fs::read_to_string(&args[i + 1]).unwrap();
